@@ -498,7 +498,7 @@ func (rn *runner) dml(i int) bool {
 			}
 		}
 		sort.Ints(ids)
-		rn.h.Stats["stmt_update_every_row"]++
+		rn.h.Stats["stmt_update_indexed_column_of_every_row"]++
 		return rn.stmt(i, fmt.Sprintf("UPDATE %s SET k = %d WHERE id >= 0;", table, nk), conflict, func(o *openTxn) {
 			for _, idi := range ids {
 				old, _ := rn.visible(o, table, int32(idi))
